@@ -22,6 +22,7 @@ Oracle (independent of the model, evaluated on the implementation):
 
 Assumption: the datum carried by an event is not itself a BoboEvent (one level of wrapping).
 """
+import collections
 import decimal
 import enum
 import json
@@ -55,6 +56,20 @@ class Custom:
 
 class CustomStr(str):
     pass
+
+
+class Record:
+    """a plain user value that happens to have attributes named like an event's (it is NOT an event)"""
+
+    def __init__(self, data, event_id='rec', timestamp=7):
+        self.data, self.event_id, self.timestamp = data, event_id, timestamp
+
+
+class Jsonish:
+    """a plain user value offering `to_json_str()` (plain `dumps` does not know it)"""
+
+    def to_json_str(self):
+        return '{"a": 1}'
 
 
 class Colour(enum.IntEnum):
@@ -122,6 +137,11 @@ def fixed_values():
         ('list_with_object', [[[[Custom()]]]]), ('cyclic_list', _cyclic_list()), ('cyclic_dict', _cyclic_dict()),
         ('deep_list_100000', deep_list(100000)), ('deep_dict_50000', deep_dict(50000)),
         ('deep_list_1000_bytes_leaf', deep_list(1000, b'x')), ('ellipsis', ...), ('memoryview', memoryview(b'ab')),
+        # plain values that look a little like events: an attribute called `data` (collections.User*, a record class),
+        # a `to_json_str` method -- judged as what they are, bare and inside an event alike
+        ('userdict', collections.UserDict({'a': 1})), ('userlist', collections.UserList([1, 2])),
+        ('userstring', collections.UserString('abc')), ('record_int', Record(5)), ('record_dict', Record({'a': 1})),
+        ('record_bad', Record(b'x')), ('jsonish', Jsonish()), ('list_with_record', [Record(1)]),
     ]
 
 
@@ -288,10 +308,30 @@ def serialise_failure(value, wrap):
             return ('wrapping event to_json_str', root_exc(e).__class__.__name__)
     try:
         rs = BoboRunSerial('r1', 'phen', 'pat', 1, BoboHistory({'g': evs}))
-        BoboDistributedTCP._outgoing_to_json(None, {'completed': [rs], 'halted': [], 'updated': [rs]})
+        _tcp_instance()._outgoing_to_json({'completed': [rs], 'halted': [], 'updated': [rs]})
     except Exception as e:  # noqa
         return ('tcp _outgoing_to_json', root_exc(e).__class__.__name__)
     return None
+
+
+_TCP = []
+
+
+def _tcp_instance():
+    """a real, never started distributed instance (the serialiser of outgoing messages is one of its methods)."""
+    if not _TCP:
+        from bobocep.dist.device import BoboDevice
+        from bobocep.dist.crypto.aes import BoboDistributedCryptoAES
+
+        class _NoDecider:
+            def snapshot(self):
+                return [], [], []
+
+            def subscribe(self, s):
+                pass
+        devs = [BoboDevice(addr='127.0.0.1', port=9001, urn='a', id_key='ka'), BoboDevice(addr='127.0.0.1', port=9002, urn='b', id_key='kb')]
+        _TCP.append(BoboDistributedTCP(urn='a', decider=_NoDecider(), devices=devs, crypto=BoboDistributedCryptoAES('0123456789abcdef')))
+    return _TCP[0]
 
 
 def documented(cls, value, d_ok, schema, types, subtype):
